@@ -99,7 +99,9 @@ func TestVerifC10(t *testing.T) {
 	sigs := map[string]*vViol{}
 	// S is a services link (PASS services=..., SERVER): its messages carry a prefix and are handled by the
 	// server-to-server command table, retries must be recognised all the same
-	alphabet := []string{"postA", "retryA", "pingA", "postB", "retryB", "postS", "retryS", "deathA", "snapshot", "restart"}
+	// foldsnapshot: a snapshot taken "much later" (compaction time far in the future): every entry is old enough
+	// to be folded into the snapshot state, so that the markers have to survive in the state alone
+	alphabet := []string{"postA", "retryA", "pingA", "postB", "retryB", "postS", "retryS", "deathA", "snapshot", "foldsnapshot", "restart"}
 	base := t.TempDir()
 	seqs := vSeqs(alphabet, depth)
 	if rp := os.Getenv("VERIF_REPLAY"); rp != "" {
@@ -155,6 +157,7 @@ func TestVerifC10(t *testing.T) {
 		}
 		last := map[string]*c10Posted{}
 		var posted []*c10Posted
+		foldedBefore := 0 // number of posted messages when the last foldsnapshot ran
 		res.Sequences++
 		for oi, op := range seq {
 			res.Ops++
@@ -199,10 +202,17 @@ func TestVerifC10(t *testing.T) {
 				}
 				last[who] = p
 				posted = append(posted, p)
-			case op == "snapshot":
+			case op == "snapshot" || op == "foldsnapshot":
 				res.Snapshots++
 				time.Sleep(2 * time.Millisecond) // raft names snapshots by term-index-millisecond
-				if err := n.raft.Snapshot().Error(); err != nil {
+				if op == "foldsnapshot" {
+					*canaryCompactionStart = time.Now().Add(1000 * time.Hour).UnixNano()
+					foldedBefore = len(posted)
+				}
+				err := n.raft.Snapshot().Error()
+				*canaryCompactionStart = 0
+				// (with everything folded the log copy is empty and the next snapshot is refused: nothing to do)
+				if err != nil && !strings.Contains(err.Error(), "first index of ircstore") {
 					fail(fmt.Errorf("HARNESS: snapshot: %v", err))
 				}
 			case op == "restart":
@@ -251,13 +261,17 @@ func TestVerifC10(t *testing.T) {
 						res.report(sigs, "C10", "message of death was delivered", m.Data, seq)
 					}
 				}
-				var want []string
-				for _, p := range posted {
+				// (outputs of entries that a foldsnapshot folded are deleted by design: all of them or none)
+				var want, wantAfterFold []string
+				for k, p := range posted {
 					if p.sess == w && !p.died && p.line == "" {
 						want = append(want, p.text)
+						if k >= foldedBefore {
+							wantAfterFold = append(wantAfterFold, p.text)
+						}
 					}
 				}
-				if strings.Join(got, ",") != strings.Join(want, ",") {
+				if strings.Join(got, ",") != strings.Join(want, ",") && strings.Join(got, ",") != strings.Join(wantAfterFold, ",") {
 					kind := "delivered sequence differs from posted sequence"
 					if len(got) > len(want) {
 						kind = "message delivered more than once"
